@@ -289,6 +289,20 @@ func OddSpecs(full bool) []string {
 	for _, m := range misc {
 		add(m)
 	}
+	// ---- applications and call targets that differ only in case or spacing
+	defs := []string{"Server", "Ns :: Server", "server", "My%20App"}
+	variants := func(d string) []string {
+		return []string{d, strings.ToLower(d), strings.ToUpper(d), strings.Title(strings.ToLower(d)), strings.ReplaceAll(d, " :: ", "::"), strings.ReplaceAll(d, " :: ", " ::")}
+	}
+	for _, d := range defs {
+		for _, v := range variants(d) {
+			add(d + ":\n    Ep:\n        ...\n    /things:\n        GET:\n            ...\nClient:\n    Run:\n        " + v + " <- Ep\n")
+			add(d + ":\n    Ep:\n        ...\n    /things:\n        GET:\n            ...\nClient:\n    Run:\n        " + v + " <- GET /things\n")
+			add(d + ":\n    Ep:\n        ...\n" + v + ":\n    Other:\n        " + d + " <- Ep\n")
+			add(d + ":\n    <-> Ev:\n        ...\nClient:\n    " + v + " -> Ev:\n        ...\n")
+			add(d + ":\n    Ep:\n        ...\nClient:\n    -|> " + v + "\n    !type T:\n        f <: " + v + ".X\n")
+		}
+	}
 	// doc strings / long names everywhere
 	for _, q := range []string{"\"x\"", "\"\"", "\"a\\\"b\"", "'x'", "\"%zz\"", "\"multi word\""} {
 		add("A " + q + ":\n    ...\n")
